@@ -235,6 +235,10 @@ func (c SeriesCheck) Check(ctx context.Context, entry discovery.Entry, entries [
 			if lm.Type == labels.MatchNotEqual || lm.Type == labels.MatchNotRegexp {
 				continue
 			}
+			// foo{bar=""} and foo{bar=~".*"} also select series without the bar label.
+			if lm.Matches("") {
+				continue
+			}
 			if slices.Contains(labelNames, lm.Name) {
 				continue
 			}
@@ -474,6 +478,9 @@ func (c SeriesCheck) Check(ctx context.Context, entry discovery.Entry, entries [
 				continue
 			}
 			if lm.Type != labels.MatchEqual && lm.Type != labels.MatchRegexp {
+				continue
+			}
+			if lm.Matches("") {
 				continue
 			}
 			if c.isLabelValueIgnored(settings, entry.Rule, selector, lm.Name) {
